@@ -2265,7 +2265,9 @@ def _preprocess_kwargs_kv_pairs(
             if isinstance(key, KnownValue):
                 if isinstance(key.val, str):
                     if key in covered_keys:
+                        # a later entry for the same key wins
                         continue
+                    covered_keys.add(key)
                     out_items[key.val] = (pair.is_required, pair.value)
                     continue
                 else:
